@@ -252,6 +252,8 @@ func c01Commands(ctx *core.Ctx) {
 
 	// ---- V8
 	c01Verdicts(ctx, cmds)
+	// ---- V15
+	c01Wiring(ctx, cmds)
 
 	// ---- V11
 	c01FatalScope(ctx)
@@ -545,4 +547,161 @@ func backgroundCmdsFromExecCommand(p *core.Prog) bool {
 		})
 	}
 	return ok && n > 0
+}
+
+// c01Wiring checks which script argument reaches which operand of the call
+// that performs a command's effect (rule V15).
+func c01Wiring(ctx *core.Ctx, cmds map[string]*ssa.Function) {
+	p := ctx.P
+	ctx.Rule("V15", "operand wiring: for each built-in, the script arguments reach the operands of the effecting call in the documented order (mv old new -> Rename(old, new); cp src... dst; symlink file -> target => Symlink(target, file); cmp file1 file2; grep pattern file; chmod perm path...; stdin file; cd dir), each path operand through MkAbs where the doc says the script's directory applies", 12)
+	type want struct {
+		cmd    string
+		callee string // suffix of the callee name
+		opIdx  int    // operand index of the call (receiver counted for methods)
+		arg    int    // args[k]; -1 = an element of a range over args; -2 = args[len-1]
+		abs    bool   // must pass through MkAbs
+	}
+	table := []want{
+		{"mv", "os.Rename", 0, 0, true}, {"mv", "os.Rename", 1, 1, true},
+		{"symlink", "os.Symlink", 0, 2, false}, {"symlink", "os.Symlink", 1, 0, true},
+		{"cd", "TestScript).Chdir", 1, 0, false},
+		{"mkdir", "os.MkdirAll", 0, -1, true},
+		{"rm", "os.RemoveAll", 0, -1, true},
+		{"exists", "os.Stat", 0, -1, true},
+		{"stdin", "TestScript).ReadFile", 1, 0, false},
+		{"chmod", "strconv.ParseUint", 0, 0, false},
+		{"chmod", "os.Chmod", 0, -1, false},
+		{"cp", "os.WriteFile", 0, -2, true},
+		{"unquote", "os.ReadFile", 0, -1, true},
+		{"unix2dos", "os.ReadFile", 0, -1, true},
+	}
+	argLoad := func(f *ssa.Function, k int) func(ssa.Value) bool {
+		argsP := f.Params[2]
+		return func(v ssa.Value) bool {
+			u, ok := v.(*ssa.UnOp)
+			if !ok || u.Op != token.MUL {
+				return false
+			}
+			ia, ok := u.X.(*ssa.IndexAddr)
+			if !ok {
+				return false
+			}
+			base := ia.X
+			// args may have been re-sliced (args[1:]) for range loops
+			switch k {
+			case -1:
+				_, isConst := ssax.ConstInt(ia.Index)
+				return !isConst && ssax.DerivedFrom(base, isVal(argsP), nil)
+			case -2:
+				return base == ssa.Value(argsP) && isLenMinus(argsP, 1)(ia.Index)
+			default:
+				c, isConst := ssax.ConstInt(ia.Index)
+				return isConst && int(c) == k && base == ssa.Value(argsP)
+			}
+		}
+	}
+	isMkAbs := func(c *ssa.Call) bool { return strings.HasSuffix(ssax.CalleeName(&c.Call), "TestScript).MkAbs") }
+	for _, w := range table {
+		f := cmds[w.cmd]
+		if f == nil {
+			ctx.Unknown("V15", "testscript.cmd:"+w.cmd, token.NoPos, "built-in %q not found", w.cmd)
+			continue
+		}
+		g := graph(p, f)
+		var calls []*ssa.Call
+		g.Instrs(func(i ssa.Instruction) {
+			if c, ok := i.(*ssa.Call); ok && strings.HasSuffix(ssax.CalleeName(&c.Call), w.callee) {
+				calls = append(calls, c)
+			}
+		})
+		key := fmt.Sprintf("testscript.cmd:%s#%s[%d]", w.cmd, w.callee[strings.LastIndex(w.callee, ".")+1:], w.opIdx)
+		if len(calls) == 0 {
+			ctx.Bad("V15", key, f.Pos(), "%s no longer calls %s", w.cmd, w.callee)
+			continue
+		}
+		ok := false
+		for _, c := range calls {
+			if w.opIdx >= len(c.Call.Args) {
+				continue
+			}
+			op := c.Call.Args[w.opIdx]
+			sawAbs := false
+			from := ssax.DerivedFrom(op, argLoad(f, w.arg), func(cc *ssa.Call) bool {
+				if isMkAbs(cc) {
+					sawAbs = true
+					return true
+				}
+				n := ssax.CalleeName(&cc.Call)
+				return strings.HasPrefix(n, "path/filepath.") || n == "builtin.append"
+			})
+			// the other script arguments must not reach this operand
+			if from && (!w.abs || sawAbs) {
+				ok = true
+				for other := 0; other <= 2; other++ {
+					if other == w.arg || w.arg < 0 {
+						continue
+					}
+					if ssax.DerivedFrom(op, argLoad(f, other), func(cc *ssa.Call) bool { return true }) {
+						ok = false
+					}
+				}
+			}
+		}
+		what := map[int]string{-1: "each listed argument", -2: "the last argument"}[w.arg]
+		if what == "" {
+			what = fmt.Sprintf("argument %d", w.arg+1)
+		}
+		ctx.Check(ok, "V15", key, calls[0].Pos(), "%s: operand %d of %s is %s%s", w.cmd, w.opIdx, w.callee, what, map[bool]string{true: " made absolute against the script's directory", false: ""}[w.abs])
+	}
+	// cmp/cmpenv: first text from ReadFile(args[0]) (stdout/stderr aware), second from os.ReadFile(MkAbs(args[1]))
+	if f := p.Func("testscript", "(*TestScript).doCmdCmp"); f != nil {
+		g := graph(p, f)
+		argsP := f.Params[2]
+		el := func(k int64) func(ssa.Value) bool { return isElemLoad(argsP, isConstIntV(k)) }
+		ok1, ok2 := false, false
+		for _, c := range g.Calls("(*" + tsPkg + ".TestScript).ReadFile") {
+			ok1 = ssax.DerivedFrom(c.Call.Args[1], el(0), nil) && !ssax.DerivedFrom(c.Call.Args[1], el(1), nil)
+		}
+		for _, c := range g.Calls("os.ReadFile") {
+			ok2 = ssax.DerivedFrom(c.Call.Args[0], el(1), func(cc *ssa.Call) bool { return isMkAbs(cc) }) && !ssax.DerivedFrom(c.Call.Args[0], el(0), func(cc *ssa.Call) bool { return true })
+		}
+		ctx.Check(ok1 && ok2, "V15", "testscript.doCmdCmp#operands", f.Pos(), "cmp reads the actual text from its first argument (stdout/stderr aware) and the expected text from its second")
+	}
+	// grep: pattern args[0], file args[1]; stdout/stderr: pattern args[0], text = ts.stdout/ts.stderr
+	if f := p.Func("testscript", "scriptMatch"); f != nil {
+		g := graph(p, f)
+		okPat, okFile := false, false
+		for _, c := range g.Calls("regexp.Compile") {
+			okPat = ssax.DerivedFrom(c.Call.Args[0], func(v ssa.Value) bool {
+				u, ok := v.(*ssa.UnOp)
+				if !ok {
+					return false
+				}
+				ia, ok := u.X.(*ssa.IndexAddr)
+				return ok && isConstIntV(0)(ia.Index)
+			}, nil)
+		}
+		for _, c := range g.Calls("os.ReadFile") {
+			okFile = ssax.DerivedFrom(c.Call.Args[0], func(v ssa.Value) bool {
+				u, ok := v.(*ssa.UnOp)
+				if !ok {
+					return false
+				}
+				ia, ok := u.X.(*ssa.IndexAddr)
+				return ok && isConstIntV(1)(ia.Index)
+			}, func(cc *ssa.Call) bool { return isMkAbs(cc) })
+		}
+		ctx.Check(okPat && okFile, "V15", "testscript.scriptMatch#operands", f.Pos(), "the pattern is the first argument (after -count) and grep's file the second")
+	}
+	for _, w := range []struct{ cmd, field string }{{"stdout", "stdout"}, {"stderr", "stderr"}, {"ttyout", "ttyout"}} {
+		f := cmds[w.cmd]
+		if f == nil {
+			continue
+		}
+		ok := false
+		for _, c := range graph(p, f).Calls(tsPkg + ".scriptMatch") {
+			ok = isFieldLoad(w.field)(c.Call.Args[3]) && isConstStr(w.cmd)(c.Call.Args[4])
+		}
+		ctx.Check(ok, "V15", "testscript.cmd:"+w.cmd+"#stream", f.Pos(), "%s matches against TestScript.%s", w.cmd, w.field)
+	}
 }
